@@ -327,20 +327,6 @@ theorem retarder_unitary (ht0 : t ≠ 0) (hp0 : p ≠ 0) (hx0 : x ≠ 0)
   rw [← a11, ← a12, ← a21, ← a22]
   exact ⟨i11, i12, i21, i22⟩
 
-/-- A unitary 2×2 matrix conserves the intensity `|E₁|² + |E₂|²` of every Jones vector
-(as the complex identity `conj o₁·o₁ + conj o₂·o₂ = conj e₁·e₁ + conj e₂·e₂`). -/
-theorem unitary_conserves_intensity (j11 j12 j21 j22 e1 e2 : ℂ)
-    (h11 : (starRingEnd ℂ) j11 * j11 + (starRingEnd ℂ) j21 * j21 = 1)
-    (h12 : (starRingEnd ℂ) j11 * j12 + (starRingEnd ℂ) j21 * j22 = 0)
-    (h21 : (starRingEnd ℂ) j12 * j11 + (starRingEnd ℂ) j22 * j21 = 0)
-    (h22 : (starRingEnd ℂ) j12 * j12 + (starRingEnd ℂ) j22 * j22 = 1) :
-    (starRingEnd ℂ) (j11 * e1 + j12 * e2) * (j11 * e1 + j12 * e2)
-      + (starRingEnd ℂ) (j21 * e1 + j22 * e2) * (j21 * e1 + j22 * e2)
-      = (starRingEnd ℂ) e1 * e1 + (starRingEnd ℂ) e2 * e2 := by
-  simp only [map_add, map_mul]
-  linear_combination ((starRingEnd ℂ) e1 * e1) * h11 + ((starRingEnd ℂ) e1 * e2) * h12
-    + ((starRingEnd ℂ) e2 * e1) * h21 + ((starRingEnd ℂ) e2 * e2) * h22
-
 /-- Retarders conserve `I` for every Jones vector. -/
 theorem retarder_conserves_intensity (e1 e2 : ℂ) (ht0 : t ≠ 0) (hp0 : p ≠ 0) (hx0 : x ≠ 0)
     (ht : (starRingEnd ℂ) t = t⁻¹) (hp : (starRingEnd ℂ) p = p⁻¹) (hx : (starRingEnd ℂ) x = x⁻¹) :
@@ -504,11 +490,6 @@ end model
 section unitaryTensor
 variable (xr xi yr yi zr zi wr wi : ℝ)
 
-/-- `Jᴴ J = 1` for `J = [[x, y], [z, w]]` as four real polynomial equations (decidable over `ℚ`). -/
-def IsUnitary8 (xr xi yr yi zr zi wr wi : ℝ) : Prop :=
-  xr * xr + xi * xi + zr * zr + zi * zi = 1 ∧ yr * yr + yi * yi + wr * wr + wi * wi = 1 ∧
-  xr * yr + xi * yi + zr * wr + zi * wi = 0 ∧ xr * yi - xi * yr + zr * wi - zi * wr = 0
-
 /-- First row of the generated Mueller matrix of a unitary Jones matrix is `(1, 0, 0, 0)`. -/
 theorem unitary_mueller_first_row (h : IsUnitary8 xr xi yr yi zr zi wr wi) :
     genMueller xr xi yr yi zr zi wr wi 0 0 = 1 ∧ genMueller xr xi yr yi zr zi wr wi 0 1 = 0 ∧
@@ -533,20 +514,6 @@ theorem unitary_conserves_I_tensor (h : IsUnitary8 xr xi yr yi zr zi wr wi) (e :
 example : IsUnitary8 0 1 0 0 0 0 (3/5) (4/5) := by
   unfold IsUnitary8; norm_num
 end unitaryTensor
-
-/-- The complex form of `Jᴴ J = 1` (as proved for the generated retarder matrix) gives the real form. -/
-theorem unitary8_of_complex (j11 j12 j21 j22 : ℂ)
-    (h11 : (starRingEnd ℂ) j11 * j11 + (starRingEnd ℂ) j21 * j21 = 1)
-    (h12 : (starRingEnd ℂ) j11 * j12 + (starRingEnd ℂ) j21 * j22 = 0)
-    (h22 : (starRingEnd ℂ) j12 * j12 + (starRingEnd ℂ) j22 * j22 = 1) :
-    IsUnitary8 j11.re j11.im j12.re j12.im j21.re j21.im j22.re j22.im := by
-  have a := congrArg Complex.re h11
-  have b := congrArg Complex.re h22
-  have c := congrArg Complex.re h12
-  have d := congrArg Complex.im h12
-  simp only [Complex.add_re, Complex.mul_re, Complex.conj_re, Complex.conj_im, Complex.one_re, Complex.zero_re,
-    Complex.add_im, Complex.mul_im, Complex.zero_im] at a b c d
-  refine ⟨by linarith, by linarith, by linarith, by linarith⟩
 
 section retarderTensor
 open Complex
@@ -849,5 +816,204 @@ example : (3 / 5 : ℝ) ^ 2 + (4 / 5) ^ 2 = 1 ∧ (1 : ℝ) ^ 2 + 0 ^ 2 = 1 ∧ 
   rw [Real.sq_sqrt (by norm_num)]; norm_num
 
 end splitter
+
+/-! ## 11. Round 5: the clauses about retarders, polarisers and beam splitters on the executed matrices
+
+`retarder`, `polarizer`, `splitterPorts`, `muellerDef`, `J2.adj`, `J2.apply` are the definitions the driver runs (ops `retarder`,
+`polarizer`, `ports`, `mueller`, `applyadj`, `apply`) and the harness compares with `jones_matrix`, `mueller_matrix`, `forward` and
+`backward` of the real elements at Gaussian-rational atoms. -/
+section round5
+variable (c s pc ps xc xs : ℝ)
+
+/-- **Mueller route = Jones route on the executed definitions**, for every Jones matrix: the Stokes vector after `J` is the executed
+`muellerDef J` applied to the Stokes vector before it (partially polarised light, any input Stokes vector). -/
+theorem model_mueller_route_tensor (j e : J2 ℝ) (sv : S4 ℝ) :
+    jonesStokes (j * e) sv = mulVec (muellerDef j) (jonesStokes e sv) := by
+  obtain ⟨⟨xr, xi⟩, ⟨yr, yi⟩, ⟨zr, zi⟩, ⟨wr, wi⟩⟩ := j
+  have h := mueller_after_element_tensor xr xi yr yi zr zi wr wi e sv
+  have hm : ∀ r k, r < 4 → k < 4 → muellerDef (⟨⟨xr, xi⟩, ⟨yr, yi⟩, ⟨zr, zi⟩, ⟨wr, wi⟩⟩ : J2 ℝ) r k = genMueller xr xi yr yi zr zi wr wi r k :=
+    fun r k hr hk => mueller_def_eq xr xi yr yi zr zi wr wi r k hr hk
+  unfold mkJ at h
+  rw [h]
+  simp only [mulVec]
+  rw [hm 0 0, hm 0 1, hm 0 2, hm 0 3, hm 1 0, hm 1 1, hm 1 2, hm 1 3, hm 2 0, hm 2 1, hm 2 2, hm 2 3, hm 3 0, hm 3 1, hm 3 2, hm 3 3] <;>
+    norm_num
+
+/-- … in particular for the executed retarder (all six retarder classes), the executed polariser and both ports of either
+beam splitter: `mueller_matrix · stokes(before) = stokes(after)`. -/
+theorem model_elements_mueller_route (e : J2 ℝ) (sv : S4 ℝ) :
+    jonesStokes (retarder c s ⟨pc, ps⟩ ⟨xc, xs⟩ * e) sv = mulVec (muellerDef (retarder c s ⟨pc, ps⟩ ⟨xc, xs⟩)) (jonesStokes e sv) ∧
+    jonesStokes (polarizer c s * e) sv = mulVec (muellerDef (polarizer c s)) (jonesStokes e sv) ∧
+    jonesStokes (splitterPorts c s (retarder pc ps ⟨xc, xs⟩ ⟨1, 0⟩) e).1 sv
+      = mulVec (muellerDef (polarizer c s)) (mulVec (muellerDef (retarder pc ps ⟨xc, xs⟩ ⟨1, 0⟩)) (jonesStokes e sv)) ∧
+    jonesStokes (splitterPorts c s (retarder pc ps ⟨xc, xs⟩ ⟨1, 0⟩) e).2 sv
+      = mulVec (muellerDef (polarizer (-s) c)) (mulVec (muellerDef (retarder pc ps ⟨xc, xs⟩ ⟨1, 0⟩)) (jonesStokes e sv)) := by
+  refine ⟨model_mueller_route_tensor _ e sv, model_mueller_route_tensor _ e sv, ?_, ?_⟩ <;>
+  · unfold splitterPorts
+    simp only
+    rw [model_mueller_route_tensor, model_mueller_route_tensor]
+
+/-- **The executed linear polariser is an idempotent Hermitian projector**: `P·P = P` and `Pᴴ = P` (so `backward`, which applies
+`Pᴴ`, is `forward`). -/
+theorem model_polarizer_projector (h : c ^ 2 + s ^ 2 = 1) :
+    polarizer c s * polarizer c s = polarizer c s ∧ (polarizer c s).adj = polarizer c s := by
+  have cx_ext : ∀ {a b : Cx ℝ}, a.re = b.re → a.im = b.im → a = b := by
+    intro a b h1 h2; cases a; cases b; simp only at h1 h2; rw [h1, h2]
+  constructor
+  · have e1 : c * c * (c * c) + c * s * (c * s) = c * c := by linear_combination (c * c) * h
+    have e2 : c * c * (c * s) + c * s * (s * s) = c * s := by linear_combination (c * s) * h
+    have e3 : c * s * (c * s) + s * s * (s * s) = s * s := by linear_combination (s * s) * h
+    have e4 : c * s * (c * c) + s * s * (c * s) = c * s := by linear_combination (c * s) * h
+    show J2.mul _ _ = _
+    simp only [J2.mul, polarizer, J2.mk.injEq]
+    refine ⟨?_, ?_, ?_, ?_⟩ <;> apply cx_ext <;>
+      simp only [Cx.add_re, Cx.add_im, Cx.mul_re, Cx.mul_im, mul_zero, zero_mul, sub_zero, add_zero] <;>
+      first | exact e1 | exact e2 | exact e3 | exact e4
+  · simp only [J2.adj, polarizer, Cx.conj, neg_zero]
+
+/-- **Malus' law on the executed polariser**: linearly polarised light `A·(cos α, sin α)` behind a polariser at angle θ carries
+`|A|² cos²(θ − α)` (`cos(θ − α) = c·ca + s·sa`). -/
+theorem model_malus (ca sa : ℝ) (h : c ^ 2 + s ^ 2 = 1) (A : Cx ℝ) :
+    (vecStokes ((polarizer c s).apply ⟨Cx.smul ca A, Cx.smul sa A⟩)).i = A.normSq * (c * ca + s * sa) ^ 2 := by
+  obtain ⟨ar, ai⟩ := A
+  have e1 : (vecStokes ((polarizer c s).apply ⟨Cx.smul ca ⟨ar, ai⟩, Cx.smul sa ⟨ar, ai⟩⟩)).i
+      = (c ^ 2 + s ^ 2) * ((ar * ar + ai * ai) * (c * ca + s * sa) ^ 2) := by
+    jones_model_expand; ring
+  rw [e1, h, one_mul]; simp only [Cx.normSq]
+
+/-- **Retarders on the executed definitions**: `backward` (`Jᴴ·`) undoes `forward` (`J·`) on Jones vectors, and the first row of the
+executed Mueller matrix is `(1, 0, 0, 0)` (the intensity is conserved whatever the Stokes vector). -/
+theorem model_retarder_backward_forward (h : c ^ 2 + s ^ 2 = 1) (hp : pc ^ 2 + ps ^ 2 = 1) (hx : xc ^ 2 + xs ^ 2 = 1) (e : V2 ℝ) :
+    (retarder c s ⟨pc, ps⟩ ⟨xc, xs⟩).adj.apply ((retarder c s ⟨pc, ps⟩ ⟨xc, xs⟩).apply e) = e ∧
+    muellerDef (retarder c s ⟨pc, ps⟩ ⟨xc, xs⟩) 0 0 = 1 ∧ muellerDef (retarder c s ⟨pc, ps⟩ ⟨xc, xs⟩) 0 1 = 0 ∧
+    muellerDef (retarder c s ⟨pc, ps⟩ ⟨xc, xs⟩) 0 2 = 0 ∧ muellerDef (retarder c s ⟨pc, ps⟩ ⟨xc, xs⟩) 0 3 = 0 := by
+  have hu := model_retarder_unitary c s pc ps xc xs h hp hx
+  refine ⟨model_unitary_backward_forward _ hu e, ?_⟩
+  generalize retarder c s ⟨pc, ps⟩ ⟨xc, xs⟩ = j at hu ⊢
+  obtain ⟨⟨xr, xi⟩, ⟨yr, yi⟩, ⟨zr, zi⟩, ⟨wr, wi⟩⟩ := j
+  obtain ⟨r0, r1, r2, r3⟩ := unitary_mueller_first_row xr xi yr yi zr zi wr wi hu
+  have hm : ∀ k, k < 4 → muellerDef (⟨⟨xr, xi⟩, ⟨yr, yi⟩, ⟨zr, zi⟩, ⟨wr, wi⟩⟩ : J2 ℝ) 0 k = genMueller xr xi yr yi zr zi wr wi 0 k :=
+    fun k hk => mueller_def_eq xr xi yr yi zr zi wr wi 0 k (by norm_num) hk
+  rw [hm 0 (by norm_num), hm 1 (by norm_num), hm 2 (by norm_num), hm 3 (by norm_num)]
+  exact ⟨r0, r1, r2, r3⟩
+
+/-- The hypotheses are satisfiable (Pythagorean angle, quarter-wave retardance, circularity 0). -/
+example : (3 / 5 : ℝ) ^ 2 + (4 / 5) ^ 2 = 1 ∧ Real.sqrt (1 / 2) ^ 2 + Real.sqrt (1 / 2) ^ 2 = 1 ∧ (1 : ℝ) ^ 2 + 0 ^ 2 = 1 := by
+  refine ⟨by norm_num, ?_, by norm_num⟩
+  rw [Real.sq_sqrt (by norm_num)]; norm_num
+
+/-- **Circular polarising beam splitter on the executed definitions** (`splitterPorts 1 0 R`, `R` the executed retarder at the atoms of a
+quarter-wave plate at 45°: `cos θ = sin θ = h`, `exp(iφ/2) = h + h i`, `exp(iχ) = 1`, `h = √½`, i.e. `2h² = 1`): `R = h·[[1, i], [i, 1]]`
+and the difference of the two port intensities is the circular Stokes parameter `V` of the input, for partially polarised light and
+every input Stokes vector (their sum is `I`: `model_splitter_ports_sum_tensor`). -/
+theorem model_cbs_ports_difference (h : ℝ) (hh : 2 * (h * h) = 1) (e : J2 ℝ) (sv : S4 ℝ) :
+    retarder h h ⟨h, h⟩ ⟨1, 0⟩ = ⟨⟨h, 0⟩, ⟨0, h⟩, ⟨0, h⟩, ⟨h, 0⟩⟩ ∧
+    (jonesStokes (splitterPorts 1 0 (retarder h h ⟨h, h⟩ ⟨1, 0⟩) e).2 sv).i
+      - (jonesStokes (splitterPorts 1 0 (retarder h h ⟨h, h⟩ ⟨1, 0⟩) e).1 sv).i = (jonesStokes e sv).v := by
+  have cx_ext : ∀ {a b : Cx ℝ}, a.re = b.re → a.im = b.im → a = b := by
+    intro a b h1 h2; cases a; cases b; simp only at h1 h2; rw [h1, h2]
+  have hr : retarder h h ⟨h, h⟩ ⟨1, 0⟩ = (⟨⟨h, 0⟩, ⟨0, h⟩, ⟨0, h⟩, ⟨h, 0⟩⟩ : J2 ℝ) := by
+    simp only [retarder, J2.mk.injEq]
+    refine ⟨?_, ?_, ?_, ?_⟩ <;> apply cx_ext <;>
+      simp only [Cx.smul, Cx.add_re, Cx.add_im, Cx.sub_re, Cx.sub_im, Cx.mul_re, Cx.mul_im, Cx.conj_re, Cx.conj_im] <;>
+      first | linear_combination h * hh | linear_combination (-h) * hh | ring
+  refine ⟨hr, ?_⟩
+  rw [hr]
+  obtain ⟨⟨er1, ei1⟩, ⟨er2, ei2⟩, ⟨er3, ei3⟩, ⟨er4, ei4⟩⟩ := e
+  obtain ⟨a, b, c, d⟩ := sv
+  unfold splitterPorts
+  simp only
+  have key : (jonesStokes (polarizer (-0) 1 * ((⟨⟨h, 0⟩, ⟨0, h⟩, ⟨0, h⟩, ⟨h, 0⟩⟩ : J2 ℝ) * ⟨⟨er1, ei1⟩, ⟨er2, ei2⟩, ⟨er3, ei3⟩, ⟨er4, ei4⟩⟩)) ⟨a, b, c, d⟩).i
+      - (jonesStokes (polarizer 1 0 * ((⟨⟨h, 0⟩, ⟨0, h⟩, ⟨0, h⟩, ⟨h, 0⟩⟩ : J2 ℝ) * ⟨⟨er1, ei1⟩, ⟨er2, ei2⟩, ⟨er3, ei3⟩, ⟨er4, ei4⟩⟩)) ⟨a, b, c, d⟩).i
+      = (2 * (h * h)) * (jonesStokes (⟨⟨er1, ei1⟩, ⟨er2, ei2⟩, ⟨er3, ei3⟩, ⟨er4, ei4⟩⟩ : J2 ℝ) ⟨a, b, c, d⟩).v := by
+    jones_model_expand; ring
+  rw [key, hh, one_mul]
+
+/-- `2h² = 1` is satisfiable (`h = √½`). -/
+example : 2 * (Real.sqrt (1 / 2) * Real.sqrt (1 / 2)) = (1 : ℝ) := by
+  rw [Real.mul_self_sqrt (by norm_num)]; norm_num
+
+/-- **`backward ∘ forward = id` on Jones-matrix wavefronts, executed definitions** (`J2.adj`, `J2.mul`: ops `adj`, `mul`): for every
+unitary `J`, in particular the executed retarder of every retarder class. -/
+theorem model_unitary_backward_forward_tensor (j : J2 ℝ)
+    (h : IsUnitary8 j.a11.re j.a11.im j.a12.re j.a12.im j.a21.re j.a21.im j.a22.re j.a22.im) (e : J2 ℝ) :
+    j.adj * (j * e) = e := by
+  have cx_ext : ∀ {a b : Cx ℝ}, a.re = b.re → a.im = b.im → a = b := by
+    intro a b h1 h2; cases a; cases b; simp only at h1 h2; rw [h1, h2]
+  obtain ⟨⟨xr, xi⟩, ⟨yr, yi⟩, ⟨zr, zi⟩, ⟨wr, wi⟩⟩ := j
+  obtain ⟨⟨pr, pi⟩, ⟨p2r, p2i⟩, ⟨qr, qi⟩, ⟨q2r, q2i⟩⟩ := e
+  obtain ⟨h1, h2, h3, h4⟩ := h
+  simp only at h1 h2 h3 h4
+  show J2.mul _ (J2.mul _ _) = _
+  simp only [J2.mul, J2.adj, J2.mk.injEq]
+  refine ⟨?_, ?_, ?_, ?_⟩ <;> apply cx_ext <;>
+    simp only [Cx.add_re, Cx.add_im, Cx.mul_re, Cx.mul_im, Cx.conj_re, Cx.conj_im]
+  · linear_combination pr * h1 + qr * h3 - qi * h4
+  · linear_combination pi * h1 + qi * h3 + qr * h4
+  · linear_combination p2r * h1 + q2r * h3 - q2i * h4
+  · linear_combination p2i * h1 + q2i * h3 + q2r * h4
+  · linear_combination pr * h3 + pi * h4 + qr * h2
+  · linear_combination pi * h3 - pr * h4 + qi * h2
+  · linear_combination p2r * h3 + p2i * h4 + q2r * h2
+  · linear_combination p2i * h3 - p2r * h4 + q2i * h2
+
+theorem model_retarder_backward_forward_tensor (h : c ^ 2 + s ^ 2 = 1) (hp : pc ^ 2 + ps ^ 2 = 1) (hx : xc ^ 2 + xs ^ 2 = 1) (e : J2 ℝ) :
+    (retarder c s ⟨pc, ps⟩ ⟨xc, xs⟩).adj * (retarder c s ⟨pc, ps⟩ ⟨xc, xs⟩ * e) = e :=
+  model_unitary_backward_forward_tensor _ (model_retarder_unitary c s pc ps xc xs h hp hx) e
+
+/-- The intensity of a Jones-matrix pixel with a physical input Stokes vector is non-negative (executed `jonesStokes`). -/
+theorem model_stokesI_nonneg (e : J2 ℝ) (sv : S4 ℝ) (ha : 0 ≤ sv.i) (hphys : sv.q ^ 2 + sv.u ^ 2 + sv.v ^ 2 ≤ sv.i ^ 2) :
+    0 ≤ (jonesStokes e sv).i := jonesStokes_i_nonneg e sv ha hphys
+
+example : (0 : ℝ) ≤ (⟨1, 0, 0, 0⟩ : S4 ℝ).i ∧ (⟨1, 0, 0, 0⟩ : S4 ℝ).q ^ 2 + (⟨1, 0, 0, 0⟩ : S4 ℝ).u ^ 2 + (⟨1, 0, 0, 0⟩ : S4 ℝ).v ^ 2 ≤ (⟨1, 0, 0, 0⟩ : S4 ℝ).i ^ 2 := by
+  norm_num
+
+/-- **Half-wave plate** (`Model.halfWavePlate`, driver op `hwp`, compared with `HalfWavePlate` / `GeometricPhaseElement.jones_matrix`):
+it is `i` times the reflection `[[cos 2θ, sin 2θ], [sin 2θ, −cos 2θ]]`, and two of them in a row are `−1` (the identity up to a global phase). -/
+theorem model_hwp (h1 : c ^ 2 + s ^ 2 = 1) :
+    halfWavePlate c s = ⟨⟨0, c * c - s * s⟩, ⟨0, 2 * (c * s)⟩, ⟨0, 2 * (c * s)⟩, ⟨0, s * s - c * c⟩⟩ ∧
+    halfWavePlate c s * halfWavePlate c s = ⟨⟨-1, 0⟩, ⟨0, 0⟩, ⟨0, 0⟩, ⟨-1, 0⟩⟩ := by
+  have cx_ext : ∀ {a b : Cx ℝ}, a.re = b.re → a.im = b.im → a = b := by
+    intro a b h1 h2; cases a; cases b; simp only at h1 h2; rw [h1, h2]
+  have e : halfWavePlate c s = (⟨⟨0, c * c - s * s⟩, ⟨0, 2 * (c * s)⟩, ⟨0, 2 * (c * s)⟩, ⟨0, s * s - c * c⟩⟩ : J2 ℝ) := by
+    simp only [halfWavePlate, retarder, J2.mk.injEq]
+    refine ⟨?_, ?_, ?_, ?_⟩ <;> apply cx_ext <;>
+      simp only [Cx.smul, Cx.add_re, Cx.add_im, Cx.sub_re, Cx.sub_im, Cx.mul_re, Cx.mul_im, Cx.conj_re, Cx.conj_im] <;> ring
+  refine ⟨e, ?_⟩
+  rw [e]
+  show J2.mul _ _ = _
+  simp only [J2.mul, J2.mk.injEq]
+  refine ⟨?_, ?_, ?_, ?_⟩ <;> apply cx_ext <;>
+    simp only [Cx.add_re, Cx.add_im, Cx.mul_re, Cx.mul_im] <;>
+    first | ring1 | linear_combination (-(c ^ 2 + s ^ 2) - 1) * h1
+
+/-- **Quarter-wave plate** (`Model.quarterWavePlate`, driver op `qwp`, compared with `QuarterWavePlate.jones_matrix`; `h = √½`): two
+quarter-wave plates at the same angle are the half-wave plate at that angle. -/
+theorem model_qwp_twice (h : ℝ) (h1 : c ^ 2 + s ^ 2 = 1) (hh : 2 * (h * h) = 1) :
+    quarterWavePlate c s h * quarterWavePlate c s h = halfWavePlate c s := by
+  have cx_ext : ∀ {a b : Cx ℝ}, a.re = b.re → a.im = b.im → a = b := by
+    intro a b h1 h2; cases a; cases b; simp only at h1 h2; rw [h1, h2]
+  show J2.mul _ _ = _
+  simp only [quarterWavePlate, halfWavePlate, retarder, J2.mul, J2.mk.injEq]
+  refine ⟨?_, ?_, ?_, ?_⟩ <;> apply cx_ext <;>
+    simp only [Cx.smul, Cx.add_re, Cx.add_im, Cx.sub_re, Cx.sub_im, Cx.mul_re, Cx.mul_im, Cx.conj_re, Cx.conj_im] <;>
+    first
+      | ring1
+      | linear_combination ((c * c - s * s) * (c ^ 2 + s ^ 2)) * hh + (c * c - s * s) * h1
+      | linear_combination ((2 * (c * s)) * (c ^ 2 + s ^ 2)) * hh + (2 * (c * s)) * h1
+      | linear_combination ((s * s - c * c) * (c ^ 2 + s ^ 2)) * hh + (s * s - c * c) * h1
+
+/-- Both wave plates are instances of the executed retarder, so they are unitary, conserve `I` for every wavefront kind and are undone by
+`backward` (`model_retarder_unitary`, `model_retarder_conserves_I_tensor`, `model_retarder_backward_forward(_tensor)` at these atoms). -/
+theorem model_waveplates_unitary (h : ℝ) (h1 : c ^ 2 + s ^ 2 = 1) (hh : 2 * (h * h) = 1) (e : J2 ℝ) (sv : S4 ℝ) :
+    (jonesStokes (halfWavePlate c s * e) sv).i = (jonesStokes e sv).i ∧ (jonesStokes (quarterWavePlate c s h * e) sv).i = (jonesStokes e sv).i ∧
+    (halfWavePlate c s).adj * (halfWavePlate c s * e) = e ∧ (quarterWavePlate c s h).adj * (quarterWavePlate c s h * e) = e := by
+  have u1 : (0 : ℝ) ^ 2 + 1 ^ 2 = 1 := by norm_num
+  have u2 : (1 : ℝ) ^ 2 + 0 ^ 2 = 1 := by norm_num
+  have u3 : h ^ 2 + h ^ 2 = 1 := by linear_combination hh
+  exact ⟨model_retarder_conserves_I_tensor c s 0 1 1 0 h1 u1 u2 e sv, model_retarder_conserves_I_tensor c s h h 1 0 h1 u3 u2 e sv,
+    model_retarder_backward_forward_tensor c s 0 1 1 0 h1 u1 u2 e, model_retarder_backward_forward_tensor c s h h 1 0 h1 u3 u2 e⟩
+
+end round5
 
 end HcipyVerif.C08
